@@ -26,6 +26,8 @@ use std::sync::{Arc, Mutex};
 // watchdog: a case that burns more than LIMIT_MS of CPU on the monitor thread is reported as
 // "no decision" and the shard stops (the engine cannot be interrupted from outside)
 static CASE_STARTED_CPU: AtomicU64 = AtomicU64::new(u64::MAX);
+/// set while the engine (not the reference) is running: only then is a long case the engine's
+static ENGINE_PHASE: std::sync::atomic::AtomicBool = std::sync::atomic::AtomicBool::new(false);
 const LIMIT_MS: u64 = 20_000;
 
 struct Watch {
@@ -48,13 +50,14 @@ impl Watch {
                     let (what, replay) = cur.lock().unwrap().clone().unwrap_or(("?".into(), json!({})));
                     let mut replay = replay;
                     replay["property"] = json!(prop);
-                    let sig = format!("no-decision-within-{}s-cpu", LIMIT_MS / 1000);
+                    let in_engine = ENGINE_PHASE.load(Ordering::SeqCst);
+                    let sig = if in_engine { format!("no-decision-within-{}s-cpu", LIMIT_MS / 1000) } else { "reference-too-slow".to_string() };
                     replay["signature"] = json!(sig);
                     let v = json!({
                         "prop": prop, "seed": seed, "tier": tier, "shard": shard, "of": of,
                         "evaluations": 0, "distinct": [], "samples": [], "counters": {}, "inconclusive": {}, "aux": {},
-                        "violations": [{"signature": sig, "clause": "terminates", "detail": what, "replay": replay, "count": 1}],
-                        "wall_s": 0.0, "error": null, "partial": true,
+                        "violations": if in_engine { json!([{"signature": sig, "clause": "terminates", "detail": what, "replay": replay, "count": 1}]) } else { json!([]) },
+                        "wall_s": 0.0, "error": if in_engine { J::Null } else { json!(format!("the reference model needed more than {} s on one case (harness problem, not a verdict): {}", LIMIT_MS / 1000, what)) }, "partial": true,
                     });
                     if let Some(p) = &args_out {
                         let _ = std::fs::write(p, v.to_string());
@@ -175,7 +178,9 @@ fn model_witness(c: &Case, cap: usize) -> rm::R<(Option<Value>, bool, usize)> {
 
 fn judge_pair(c: &Case, cap: usize) -> (Verdict, Option<bool>, usize) {
     let mut ctx = SemTypeContext::new();
+    ENGINE_PHASE.store(true, Ordering::SeqCst);
     let eng = engine_subtype(&c.s, &c.t, &c.defs, &mut ctx, c.t_first);
+    ENGINE_PHASE.store(false, Ordering::SeqCst);
     let eng = match eng {
         Eng::Ok(b) => b,
         Eng::Refused(m) => return (Verdict::Inconclusive(format!("engine-refused:{}", m.split(':').next().unwrap_or(""))), None, 0),
@@ -508,6 +513,13 @@ fn report_pair(rep: &mut Report, c: &Case, class: &'static str, detail: String, 
             })
         {
             cause = Some("right-intersection-accepted-member-by-member");
+        } else {
+            // an intersection somewhere on the right, and the answer is right in the other conversion order
+            let has_and = has_kind(&small.t, &|k| matches!(k, RuntypeKind::AllOf(_))) || small.defs.iter().any(|d| has_kind(&d.schema, &|k| matches!(k, RuntypeKind::AllOf(_))));
+            let mut ctx = SemTypeContext::new();
+            if has_and && engine_subtype(&small.s, &small.t, &small.defs, &mut ctx, !small.t_first) == Eng::Ok(true) {
+                cause = Some("right-intersection-accepted-member-by-member");
+            }
         }
     }
     let sig = if class == "panic" { format!("panic|{}", wdetail) } else if let Some(cz) = cause { format!("{}|cause:{}", class, cz) } else { format!("{}|{} <: {}{}", class, tgen::show(&small.s), tgen::show(&small.t), if small.defs.is_empty() { String::new() } else { format!(" where {}", small.defs.iter().map(|d| format!("{}={}", tgen::show(&Runtype::ref_(d.name.clone())), tgen::show(&d.schema))).collect::<Vec<_>>().join(", ")) }) };
